@@ -295,7 +295,7 @@ class extract_visitor(NodeVisitor):
         # type: (ast.ListComp | ast.GeneratorExp | ast.DictComp | ast.SetComp) -> None
         p = cur = self.flow
         for g in node.generators:
-            self.visit_in_flow(g.iter, p)
+            p = self.visit_in_flow(g.iter, p)
             pp = p
             p = self.make_flow('comp', [p])
             for nn, _idx in get_indexes_for_target(g.target, [], []):
@@ -305,16 +305,16 @@ class extract_visitor(NodeVisitor):
 
             if g.ifs:
                 for inode in g.ifs:
-                    self.visit_in_flow(inode, p)
+                    p = self.visit_in_flow(inode, p)
 
         # the element is evaluated after the conditions of the last generator:
         # names bound there (walrus) are visible in it whatever their position
         p = self.make_flow('comp-elt', [p])
         elt = getattr(node, 'elt', None) or node.value  # type: ast.AST # type: ignore[union-attr]
-        self.visit_in_flow(elt, p)
+        p = self.visit_in_flow(elt, p)
 
         if hasattr(node, 'key'):
-            self.visit_in_flow(node.key, p)
+            p = self.visit_in_flow(node.key, p)
 
         self.flow = self.make_flow('comp-join', [cur, p])
         self.flow.scope.flow = self.flow
